@@ -46,6 +46,7 @@ type PathResult struct {
 	alts     [][]int
 	viols    []Violation
 	steps    int
+	mapRanges int
 	queries  int
 	out      []string
 	covers   map[string]bool
@@ -148,6 +149,7 @@ func (w *Worker) runPath(h *ssa.Function, prefix []int, wantSample bool) (res *P
 		res.alts = p.alts
 		res.viols = p.viols
 		res.steps = p.steps
+		res.mapRanges = p.mapRanges
 		res.queries = p.nQueries
 		res.out = p.out
 		res.covers = p.covers
@@ -203,6 +205,7 @@ type HarnessStats struct {
 	Budget      int            `json:"paths_budget_exceeded"`
 	EngineErr   map[string]int `json:"engine_errors,omitempty"`
 	Steps       int64          `json:"ssa_instructions"`
+	MapRanges   int64          `json:"unobserved_map_iterations"`
 	Queries     int            `json:"queries"`
 	TableDecisions int         `json:"decisions_by_domain_tables"`
 	ChoicePoints   int64       `json:"decision_points_on_paths"`
@@ -302,6 +305,7 @@ func (rs *RunState) explore(h *ssa.Function, nworkers int) {
 				inflight--
 				st.Paths++
 				st.Steps += int64(res.steps)
+				st.MapRanges += int64(res.mapRanges)
 				st.Queries += res.queries
 				st.TableDecisions += res.tableDecisions
 				st.ChoicePoints += int64(res.choicePoints)
@@ -771,7 +775,11 @@ func runProperty(prop, tier string) int {
 				continue
 			}
 			if rev {
-				// second pass only matters for harnesses that iterate maps; cheap enough to repeat all
+				// the second pass reverses the order of every map iteration: it only matters for harnesses that iterate maps
+				if prev := rs.stats[h.Name()]; prev != nil && prev.MapRanges == 0 {
+					fmt.Printf("  %s: reverse-map-order pass skipped (no iteration over a map of more than one entry)\n", h.Name())
+					continue
+				}
 			}
 			rs.explore(h, nworkers)
 			st := rs.stats[h.Name()]
